@@ -127,6 +127,14 @@ def run_case(case, ctx):
     else:
         sc = np.array(case['vec'], dtype=case['dtype'])
         long_ = False
+    # the caller's array as it may come: read-only (np.load(mmap_mode='r')), or a strided view of a larger array
+    lay = case.get('rot', 0) % 4
+    if lay >= 2 and len(sc):
+        big = np.zeros(2 * len(sc), dtype=sc.dtype)
+        big[::2] = sc
+        sc = big[::2]
+    if lay % 2:
+        sc.flags.writeable = False
     n = len(sc)
     ids_present = sorted(set(sc.tolist()))
     has_neg = ids_present[0] < 0
